@@ -235,7 +235,32 @@ func c16Failing(r *ev.Rand, st *c16State, seq int) hx.Op {
 func c16Capacity(r *ev.Rand) (h []hx.Op, f map[int][]hx.Op) {
 	f = map[int][]hx.Op{}
 	small := func() *hx.Val { v := hx.GenNumeric(r, "[]i32", 2, 2); return &v }
-	switch r.Intn(4) {
+	switch r.Intn(5) {
+	case 4: // a Resize that shrinks one axis and grows another to more chunks than can be stored
+		// again after a shrink: it is refused, and the dataset has to stay what it was — shape,
+		// data, and a later Write / Resize on the same handle (seeded C16.r9)
+		rank := r.Range(2, 3)
+		dims, chunk, maxd := make([]uint64, rank), make([]uint64, rank), make([]uint64, rank)
+		for i := range dims {
+			dims[i], chunk[i], maxd[i] = uint64(r.Range(2, 8)), uint64(r.Range(1, 2)), hx.Unlimited
+		}
+		n := int(hx.NumElems(dims))
+		v := hx.GenNumeric(r, "[]i32", n, 2)
+		h = append(h, hx.Op{K: "create_ds", Path: "/rz", DT: "i32", Dims: dims, Chunk: chunk, MaxDims: maxd, Data: &v})
+		nd := append([]uint64(nil), dims...)
+		a := r.Intn(rank)
+		b := (a + 1 + r.Intn(rank-1)) % rank
+		nd[a], nd[b] = dims[a]-1, chunk[b]*uint64(r.Range(70000, 90000))
+		f[len(h)] = append(f[len(h)], hx.Op{K: "resize", Path: "/rz", Dims: nd, Tag: "resize-too-many-chunks-after-shrink"})
+		if r.Bool() {
+			v2 := hx.GenNumeric(r, "[]i32", n, 2)
+			h = append(h, hx.Op{K: "write", Path: "/rz", Data: &v2})
+		}
+		if r.Bool() {
+			gd := append([]uint64(nil), dims...)
+			gd[r.Intn(rank)]++
+			h = append(h, hx.Op{K: "resize", Path: "/rz", Dims: gd})
+		}
 	case 3: // an object header filled to within a few bytes of its 255-byte capacity: calls that
 		// need one more message in it (the reference count of a first hard link) must fail cleanly
 		v := hx.GenNumeric(r, "[]f64", 4, 2)
@@ -589,7 +614,7 @@ func c16Spec(path string) string {
 var C16 = &ev.Property{
 	ID:    "C16",
 	Level: "exploration",
-	Rule: "twin runs: run A executes a history H (random histories of dataset/group/attribute/link/resize/write calls, or histories that fill a group to its 32-entry / 256-byte name-heap capacity or a group header to its 255 bytes, or that leave a dataset header a few bytes short of its capacity before a first hard link needs a reference-count message in it) with 1-18 calls chosen to fail inserted at 1-6 random points from a catalogue of 40 kinds (empty/relative/existing names, missing parents, zero extents, chunk rank/size/zero, max-dims without chunks or below the extent, unknown datatype, string/array/enum options missing, Write with wrong length or Go type, Resize with wrong rank or on a fixed dataset, unsupported/empty attribute values, 64 KiB attribute names, missing attributes, duplicate or dangling hard/soft/external links, dense groups with dangling links, calls beyond a capacity limit, replacements of existing attributes by values no storage takes) plus up to three premature calls (an operation of H issued before the group it creates into or the object it links to exists) and, in half of the cases, calls on the closed writer and its handles plus two further Close calls; run B executes H alone (plus inserted calls that succeeded in A). Violations: any panic; an error from a repeated Close; a call on a closed writer/handle that reports success; a call of H whose outcome differs between A and B; any difference between the dumps of A and B through the library reader (all metadata, values, attributes) or through the independent decoder (tree, reference counts, raw data, attribute bytes). " +
+	Rule: "twin runs: run A executes a history H (random histories of dataset/group/attribute/link/resize/write calls, or histories that fill a group to its 32-entry / 256-byte name-heap capacity or a group header to its 255 bytes, or that leave a dataset header a few bytes short of its capacity before a first hard link needs a reference-count message in it, or that ask a written rank 2-3 dataset for a Resize shrinking one axis and growing another to 70 000-90 000 chunks, followed by a Write of the old shape and a legitimate Resize on the same handle) with 1-18 calls chosen to fail inserted at 1-6 random points from a catalogue of 40 kinds (empty/relative/existing names, missing parents, zero extents, chunk rank/size/zero, max-dims without chunks or below the extent, unknown datatype, string/array/enum options missing, Write with wrong length or Go type, Resize with wrong rank or on a fixed dataset, unsupported/empty attribute values, 64 KiB attribute names, missing attributes, duplicate or dangling hard/soft/external links, dense groups with dangling links, calls beyond a capacity limit, replacements of existing attributes by values no storage takes) plus up to three premature calls (an operation of H issued before the group it creates into or the object it links to exists) and, in half of the cases, calls on the closed writer and its handles plus two further Close calls; run B executes H alone (plus inserted calls that succeeded in A). Violations: any panic; an error from a repeated Close; a call on a closed writer/handle that reports success; a call of H whose outcome differs between A and B; any difference between the dumps of A and B through the library reader (all metadata, values, attributes) or through the independent decoder (tree, reference counts, raw data, attribute bytes). " +
 		"non-trivial: at least one inserted call failed, or the closed-writer tail ran; distinct = (superblock, variant, kinds of failed calls, tail, history length).",
 	Assumptions: []string{"orphaned allocations are not logical content: byte identity between the twins is not required"},
 	Cases: func(tier string) int {
